@@ -126,16 +126,27 @@ def _desc(draw, kind=None):
     else:  # krome
         d["fmt"] = "krome"
         com = draw(st.sampled_from([["user_crflux", "user_Av"], ["user_Av", "user_G0", "user_crflux"], ["vt_one"]]))
-        d["text"] = "\n".join([
-            "#generated",
-            "@common:" + ",".join(com),
-            "@var:vt_te = Tgas*8.617343e-5",
-            "@format:idx,R,R,R,P,P,P,Tmin,Tmax,rate",
-            "1,H,E,,H+,E,E,NONE,NONE,exp(-32.7d0+13.5d0*lnTe)*vt_te",
-            f"2,H+,E,,H,,,NONE,.LE.5.5e3,3.92d-13*invTe**0.6353d0*{com[0]}",
-            "@format:idx,R,R,P,P,Tmin,Tmax,rate",
-            "3,H,H,H2,,>10,NONE,1.0d-17*sqrTgas*T32**(0.5)",
-        ]) + "\n"
+        if draw(st.booleans()):
+            d["text"] = "\n".join([
+                "#generated",
+                "@common:" + ",".join(com),
+                "@var:vt_te = Tgas*8.617343e-5",
+                "@format:idx,R,R,R,P,P,P,Tmin,Tmax,rate",
+                "1,H,E,,H+,E,E,NONE,NONE,exp(-32.7d0+13.5d0*lnTe)*vt_te",
+                f"2,H+,E,,H,,,NONE,.LE.5.5e3,3.92d-13*invTe**0.6353d0*{com[0]}",
+                "@format:idx,R,R,P,P,Tmin,Tmax,rate",
+                "3,H,H,H2,,>10,NONE,1.0d-17*sqrTgas*T32**(0.5)",
+            ]) + "\n"
+        else:
+            # no @format line: KROME's standard column layout idx,R,R,R,P,P,P,P,Tmin,Tmax,rate
+            d["kind"] = "krome-standard-layout"
+            d["text"] = "\n".join([
+                "@common:" + ",".join(com),
+                "@var:vt_te = Tgas*8.617343e-5",
+                "1,H,E,,H+,E,E,,NONE,NONE,exp(-32.7d0+13.5d0*lnTe)*vt_te",
+                f"2,H+,E,,H,,,,NONE,.LE.5.5e3,3.92d-13*invTe**0.6353d0*{com[0]}",
+                "3,H,H,H,H2,H,,,>10,NONE,1.0d-31*sqrTgas*T32**(0.5)",
+            ]) + "\n"
     if draw(st.integers(0, 3)) == 0 and kind in ("kida", "umist-mod", "naunet"):
         # (the API requires the extra species to be allowed as well)
         d["allowed"] = sorted({s for r, p in sel[:-1] for s in r + p} | set(d["required"]))
@@ -145,11 +156,15 @@ def _desc(draw, kind=None):
 @st.composite
 def _case(draw):
     nd = draw(st.integers(2, 3))
-    kinds = draw(st.lists(st.sampled_from(["kida", "uclchem-upper", "leeds-grain", "krome", "umist-mod", "naunet", "uclchem-upper", "leeds-grain"]), min_size=nd, max_size=nd))
+    kinds = draw(st.lists(st.sampled_from(["kida", "uclchem-upper", "leeds-grain", "krome", "krome", "umist-mod", "naunet", "uclchem-upper", "leeds-grain"]), min_size=nd, max_size=nd))
     descs = [draw(_desc(k)) for k in kinds]
     ops = []
+    has_krome = any(d["fmt"] == "krome" for d in descs)
     for _ in range(draw(st.integers(3, 8))):
-        ops.append([draw(st.sampled_from(["build", "build_edit", "build_keep", "render_kept", "render_cli", "render_cli", "render_api", "render_api", "render_grown", "render_plus_after_export", "render_bare", "faulty_krome", "render_objects_after_superset"])), draw(st.integers(0, nd - 1))])
+        if has_krome and draw(st.integers(0, 4)) == 0:
+            ops.append(["faulty_krome", 0])
+            continue
+        ops.append([draw(st.sampled_from(["build", "build_edit", "build_keep", "render_kept", "render_cli", "render_cli", "render_api", "render_api", "render_grown", "render_plus_after_export", "render_bare", "faulty_krome", "render_objects_after_superset", "render_loader_kept"])), draw(st.integers(0, nd - 1))])
     if not any(o[0].startswith("render") for o in ops):
         ops.append(["render_cli", 0])
     return {"descs": descs, "ops": ops}
@@ -314,6 +329,18 @@ def _do(op, desc, workdir, k, slot=0):
                 shutil.rmtree(Path(workdir) / "vtexp", ignore_errors=True)
             TemplateLoader(s, m, dv).render("vtproj", net, path=root)
             return _digest(root)
+        if op == "render_loader_kept":
+            # a loader object that is kept while another back-end is rendered with a second loader (cpu, gpu, cpu again): what a loader
+            # renders depends on its own construction arguments only
+            net = Network(**_network_kwargs(desc, fname))
+            s, m, dv = desc["backend"]
+            tl = TemplateLoader(s, m, dv)
+            ob = ("cvode", "cusparse", "gpu") if m != "cusparse" else ("odeint", "rosenbrock4", "cpu")
+            other = Path(workdir) / f"op{k}_otherbackend"
+            other.mkdir()
+            TemplateLoader(*ob).render("vtproj", net, path=other)
+            tl.render("vtproj", net, path=root)
+            return _digest(root)
         if op in ("render_objects", "render_objects_after_superset"):
             # the reaction objects read from the file are handed to a second Network (a sub-network, a copy with other options, ...);
             # whether a larger network holding the same objects was rendered before must not change what this one renders
@@ -390,7 +417,7 @@ def alone(desc, route, hashseed):
 
 def _ref_route(op):
     """The route that renders the same description alone (first thing in a fresh process)."""
-    return {"render_kept": "render_api", "render_grown": "render_api", "render_plus_after_export": "render_plus", "render_objects_after_superset": "render_objects"}.get(op, op)
+    return {"render_kept": "render_api", "render_grown": "render_api", "render_plus_after_export": "render_plus", "render_objects_after_superset": "render_objects", "render_loader_kept": "render_api"}.get(op, op)
 
 
 def differs(a, b):
@@ -410,7 +437,8 @@ def check_case(case, tier):
     for k, ((op, i), dg) in enumerate(zip(ops, got)):
         if op.startswith("render"):
             ref = alone(descs[i], _ref_route(op), 0)
-            prev_other = [(o, j) for o, j in seen_ops if j != i and differs(descs[i], descs[j])]
+            # (the refused KROME file of faulty_krome is read with element lists of its own: a foreign description whatever its slot)
+            prev_other = [(o, j) for o, j in seen_ops if o == "faulty_krome" or (j != i and differs(descs[i], descs[j]))]
             if prev_other:
                 nontrivial = True
             if str(ref).startswith(("raised", "status")):
@@ -419,7 +447,7 @@ def check_case(case, tier):
                 failures.append((f"determinism/second-render-of-same-object/{descs[i]['kind']}", f"op#{k} {op}({descs[i]['kind']}): rendering the same Network object twice in a row gives different sources ({dg})"))
             elif dg != ref:
                 # classify by what happened before
-                kinds = sorted({descs[j]["kind"] for _, j in prev_other})
+                kinds = sorted({"refused-krome-file" if o_ == "faulty_krome" else descs[j]["kind"] for o_, j in prev_other})
                 why = "after-other-description" if prev_other else "repeat-or-first"
                 first_prev = prev_other[-1][0] if prev_other else "none"
                 if op == "render_kept":
@@ -439,7 +467,7 @@ def check_case(case, tier):
                     continue
                 if op == "render_bare" and prev_other:
                     failures.append(("determinism/bare-network-inherits-foreign-symbol-tables",
-                                     f"op#{k}: Network(...) of {descs[i]['kind']} (default symbol lists, no tables of its own) built after {sorted({descs[j]['kind'] for _, j in prev_other})} had installed their element lists / replacement table / binding energies: {'raises ' + str(dg)[7:] if str(dg).startswith('raised') else 'digest ' + str(dg)} vs {ref} when built first in a fresh process"))
+                                     f"op#{k}: Network(...) of {descs[i]['kind']} (default symbol lists, no tables of its own) built after {sorted({'refused-krome-file' if o_ == 'faulty_krome' else descs[j]['kind'] for o_, j in prev_other})} had installed their element lists / replacement table / binding energies: {'raises ' + str(dg)[7:] if str(dg).startswith('raised') else 'digest ' + str(dg)} vs {ref} when built first in a fresh process"))
                     seen_ops.append((op, i))
                     continue
                 failures.append((f"determinism/{op}/{why}/{descs[i]['kind']}<-{'+'.join(kinds) or 'self'}:{first_prev if first_prev.startswith('render') else 'build'}",
